@@ -19,6 +19,11 @@ type Outcome struct {
 	Both bool `json:"both,omitempty"`
 	// Conn: the callback itself calls Connect on a flow while it runs.
 	Conn *DynConn `json:"conn,omitempty"`
+	// Nested (exec of a batch item): the callback runs node Nested-1 (a batch
+	// node of its own) with the context it was given, and waits for it.
+	Nested int `json:"nested,omitempty"`
+	// Panic (exec): the callback panics with a non-error value instead of returning.
+	Panic bool `json:"panic,omitempty"`
 }
 
 // DynConn is a Connect call made from inside a callback.
